@@ -90,7 +90,7 @@ type ViolationInfo struct {
 func (v *violation) Info() ViolationInfo {
 	vi := ViolationInfo{Label: v.Label, KnownID: v.KnownID, Detail: v.Detail, Model: v.Model, Decisions: v.Prefix, Observes: v.Observes}
 	for _, d := range v.Prefix {
-		if d.Kind == 'n' {
+		if d.Kind == 'n' && strings.HasPrefix(d.Tag, "choice:") {
 			vi.Choices = append(vi.Choices, d.Alt)
 		}
 	}
